@@ -6,9 +6,10 @@ package pgcheck
 
 import (
 	"bytes"
-	"errors"
 	"encoding/binary"
+	"errors"
 	"fmt"
+	"os"
 	"regexp"
 	"sort"
 	"strconv"
@@ -209,6 +210,9 @@ func (rn *Runner) Run(stmts []Stmt) (viol []Violation, state string, harness str
 		if err != nil {
 			harness = fmt.Sprintf("%s %s: %v", role, st.Kind, err)
 			return false
+		}
+		if os.Getenv("VERIF_TRACE") != "" && err == nil {
+			fmt.Fprintf(os.Stderr, "TRACE %s %s\n  db got:  %q\n  db sent: %q\n  client:  %q\n", role, st.Kind, RawOf(res.DB), RawOf(res.DBSent), RawOf(res.Client))
 		}
 		var want []sess.Msg
 		if reference != nil {
